@@ -398,18 +398,26 @@ fn normalise(name: &str, r: &Reply) -> Reply {
     }
 }
 
-/// KF-C03-05 shape: the one-shard instance (fresher clock) says nil where the N-shard instance
-/// still serves a value, at every differing position.
+/// KF-C03-05 shape: at every differing position the one-shard instance (fresher clock) says
+/// nil where the N-shard instance still answers as for a live key: its value, or WRONGTYPE if
+/// the expired key holds a collection.
 fn stale_read_shape(r1: &Reply, rn: &Reply) -> bool {
+    fn live_answer(r: &Reply) -> bool {
+        match r {
+            Reply::Bulk(_) => true,
+            Reply::Error(_) => r.error_code().as_deref() == Some("WRONGTYPE"),
+            _ => false,
+        }
+    }
     match (r1, rn) {
-        (Reply::Nil, Reply::Bulk(_)) => true,
+        (Reply::Nil, q) if live_answer(q) => true,
         (Reply::Array(x), Reply::Array(y)) if x.len() == y.len() => {
             let mut any = false;
             for (p, q) in x.iter().zip(y.iter()) {
                 if p == q {
                     continue;
                 }
-                if matches!((p, q), (Reply::Nil, Reply::Bulk(_))) {
+                if *p == Reply::Nil && live_answer(q) {
                     any = true;
                 } else {
                     return false;
